@@ -76,6 +76,7 @@ def step (d : D) (line : String) : D × String :=
     let (d', a) := newAcks d s1
     let order := if s1.out.getLast? = some 1 ∧ (s1.acks.length = d.nAcks ∨ (s1.out.dropLast).getLast? = some 0) then "ack-before-close" else "bad-order"
     (d', "final=" ++ a ++ " close=ok order=" ++ order)
+  | "scenario" :: _ => (d, "-")
   | _ => (d, "bad-op")
 
 end Driver.Down
